@@ -110,6 +110,20 @@ macro_rules! arrays {
     };
 }
 
+/// A deserializer that hands the payload to the visitor as an OWNED byte buffer (`visit_byte_buf`), as binary /
+/// length-prefixed formats do; `BytesDeserializer` of serde covers `visit_bytes`.
+struct ByteBufDe(Vec<u8>);
+impl<'de> serde::Deserializer<'de> for ByteBufDe {
+    type Error = serde::de::value::Error;
+    fn deserialize_any<V: serde::de::Visitor<'de>>(self, v: V) -> Result<V::Value, Self::Error> {
+        v.visit_byte_buf(self.0)
+    }
+    serde::forward_to_deserialize_any! {
+        bool i8 i16 i32 i64 i128 u8 u16 u32 u64 u128 f32 f64 char str string bytes byte_buf option unit unit_struct
+        newtype_struct seq tuple tuple_struct map struct enum identifier ignored_any
+    }
+}
+
 /// every fallible constructor of the public API applied to the same bytes
 fn fallible(s: &[u8]) -> Vec<(&'static str, Option<ByteString>)> {
     let mut out: Vec<(&'static str, Option<ByteString>)> = Vec::with_capacity(9);
@@ -126,6 +140,13 @@ fn fallible(s: &[u8]) -> Vec<(&'static str, Option<ByteString>)> {
     out.push(("bytes_window", ByteString::try_from(win).ok()));
     out.push(("bytesmut", ByteString::try_from(BytesMut::from(s)).ok()));
     arrays!(s, out, 0 1 2 3 4 5 6 7 8);
+    // serde (feature "serde"): Deserialize is part of the safe API - whatever the deserializer delivers
+    {
+        use serde::de::{value::BytesDeserializer, Deserialize};
+        out.push(("serde_byte_buf", <ByteString as Deserialize>::deserialize(ByteBufDe(s.to_vec())).ok()));
+        let de: BytesDeserializer<'_, serde::de::value::Error> = BytesDeserializer::new(s);
+        out.push(("serde_bytes", <ByteString as Deserialize>::deserialize(de).ok()));
+    }
     out
 }
 
